@@ -119,7 +119,7 @@ def run(ck, rng):
             seed = rng.randint(1, 10 ** 6)
         mcases.append("mscn %s %d - - - - %d %s %s %s %s %s %s" % (entry, procs, seed, rng.choice("01"), snap_arg(pre), exts_plus(exts), hx(b"tgt"), strict, hx(doc)))
         scases.append(simple_case(entry, doc, exts, pre, strict))
-    mres, _ = run_impl(exe, mcases, per_case_timeout=15.0)
+    mres, _ = run_impl(exe, mcases, per_case_timeout=40.0)
     sres, _ = run_impl(exe, scases)
     # per-root reference blocks (simple mode on each root's own sub-document)
     bcases, bref = [], []
